@@ -31,6 +31,7 @@ func init() {
 				"third-party DNSCrypt and HTTP libraries' own buffers.",
 			Rules: map[string]string{
 				"C06-R1": "length provenance of every (*dns.Msg).Unpack argument: Bounded | FullyRead | Fresh on all paths",
+				"C06-R3": "buffer-pool wiring: a pool field of a reader / writer is set from the server's pool field of the same name (request buffers and response buffers never share a pool)",
 				"C06-R2": "no use of a pooled receive buffer after Pool.Put on any path; Put after hand-over to a worker only inside the worker",
 			},
 			Assumptions: []string{
@@ -590,6 +591,13 @@ func (a *c06) callResult(c *ssa.Call, i int, out *[]c06leaf) {
 }
 
 func runC06(c *an.Ctx) {
+	sharedCodecNames(c, "C06-R3", func(fn *ssa.Function) bool {
+		k := an.FnKey(fn)
+		return strings.HasPrefix(k, "dnsserver.") || strings.HasPrefix(k, "dnsserver/forward.") || strings.HasPrefix(k, "bindtodevice.")
+	}, func(dst, src string) bool {
+		// buffer-pool wiring: each writer and reader gets the pool meant for it
+		return strings.Contains(strings.ToLower(dst), "pool") || strings.Contains(strings.ToLower(src), "pool")
+	}, map[string]string{}, 2)
 	c.Floor("C06-R1", 3)
 	c.Floor("C06-R2", 4)
 
@@ -638,6 +646,7 @@ func runC06(c *an.Ctx) {
 // c06BufferLifetime is the use-after-Put / hand-over rule for pooled receive buffers.
 func c06BufferLifetime(c *an.Ctx, rule string) {
 	c06Retained(c, rule)
+	c06SinglePut(c, rule)
 	// R2: no use of a pooled []byte pointer after Put; a buffer captured by a
 	// submitted closure is only Put inside that closure or before the submit.
 	for _, fn := range c.AllFns {
@@ -1042,5 +1051,118 @@ func c06Retained(c *an.Ctx, rule string) {
 				c.Ok(rule, key, fs.Store.Pos(), "the stored slice keeps the buffer's capacity")
 			}
 		}
+	}
+}
+
+// c06SinglePut is the rule that a pooled receive buffer is returned to its pool
+// at most once on any path (a deferred Put counts from the point where it is
+// registered): a buffer put twice is handed to two concurrent users.
+func c06SinglePut(c *an.Ctx, rule string) {
+	// wrappers: functions that return a pooled pointer, functions that put a parameter
+	getters := map[*ssa.Function]bool{}
+	putters := map[*ssa.Function]map[int]bool{}
+	for _, fn := range c.AllFns {
+		if fn.Blocks == nil || c.IsTestFile(fn.Pos()) {
+			continue
+		}
+		for _, r := range an.Returns(fn) {
+			for _, res := range r.Results {
+				vals := []ssa.Value{res}
+				if phi, ok := res.(*ssa.Phi); ok {
+					vals = phi.Edges
+				}
+				for _, v := range vals {
+					if call, ok := v.(*ssa.Call); ok && isPoolGet(call) && isByteSlicePtr(call.Type()) {
+						getters[fn] = true
+					}
+				}
+			}
+		}
+		for _, pc := range an.Calls(fn) {
+			if !isPoolPut(pc) {
+				continue
+			}
+			args := pc.Common().Args
+			if pa, ok := args[len(args)-1].(*ssa.Parameter); ok && pa.Parent() == fn {
+				if putters[fn] == nil {
+					putters[fn] = map[int]bool{}
+				}
+				putters[fn][an.ParamIndex(pa)] = true
+			}
+		}
+	}
+	n := 0
+	for _, fn := range c.AllFns {
+		if fn.Blocks == nil || c.IsTestFile(fn.Pos()) {
+			continue
+		}
+		pkg := an.FnPkg(fn)
+		if pkg == nil {
+			continue
+		}
+		pp := an.Short(pkg.Path())
+		if !(strings.HasPrefix(pp, "dnsserver") || strings.HasPrefix(pp, "bindtodevice")) {
+			continue
+		}
+		for _, gi := range an.Calls(fn) {
+			gc, ok := gi.(*ssa.Call)
+			if !ok || !isByteSlicePtr(gc.Type()) {
+				continue
+			}
+			if cal := an.StaticCallee(gc); !(isPoolGet(gc) || (cal != nil && getters[cal])) {
+				continue
+			}
+			// aliases of the pointer: the value and loads of the cell it is spilled into
+			ptrs := map[ssa.Value]bool{gc: true}
+			if gc.Referrers() != nil {
+				for _, r := range *gc.Referrers() {
+					if st, ok := r.(*ssa.Store); ok && st.Val == ssa.Value(gc) {
+						if al, ok := st.Addr.(*ssa.Alloc); ok {
+							for _, rr := range *al.Referrers() {
+								if ld, ok := rr.(*ssa.UnOp); ok && ld.Op == token.MUL {
+									ptrs[ld] = true
+								}
+							}
+						}
+					}
+				}
+			}
+			events := map[ssa.Instruction]bool{}
+			for _, pc := range an.Calls(fn) {
+				args := pc.Common().Args
+				if len(args) == 0 {
+					continue
+				}
+				if isPoolPut(pc) && ptrs[args[len(args)-1]] {
+					events[pc] = true
+					continue
+				}
+				if cal := an.StaticCallee(pc); cal != nil && putters[cal] != nil {
+					for i := range putters[cal] {
+						if i < len(args) && ptrs[args[i]] {
+							events[pc] = true
+						}
+					}
+				}
+			}
+			if len(events) == 0 {
+				continue
+			}
+			n++
+			c.Analysed(an.FnKey(fn))
+			key := fmt.Sprintf("%s returns the buffer from %s to its pool at most once", an.FnKey(fn), an.Short(an.CalleeName(gc)))
+			if w := an.PathEvents(fn, events, 1, nil); w != nil {
+				var where []string
+				for _, in := range w {
+					where = append(where, c.Pos(in.Pos()))
+				}
+				c.Bad(rule, key, w[len(w)-1].Pos(), "the buffer is returned to the pool twice on one path (%s; a deferred Put runs in addition to an explicit one): two later users get the same buffer and one decodes the other's bytes", strings.Join(where, ", "))
+			} else {
+				c.Ok(rule, key, gc.Pos(), "%d Put sites, at most one on any path", len(events))
+			}
+		}
+	}
+	if n == 0 {
+		c.Und(rule, "single Put", token.NoPos, "no pooled receive buffer with a Put in the same function was found")
 	}
 }
